@@ -49,7 +49,8 @@ Theorem C02_covers_core :
       match tg with
       | TId t => exists f, de re_match native_ok T f t v <> None
       | TProps ps deny =>
-          exists f, de_struct_body T (de re_match native_ok T f) (default_val T f) ps deny v <> None
+          exists f kvs, v = JObj kvs /\
+                        de_struct_obj T (de re_match native_ok T f) (default_val T f) ps deny kvs <> None
       | TTuple ts =>
           exists f, de_payload T (de re_match native_ok T f) (default_val T f) false (VTuple ts) v <> None
       end.
@@ -367,8 +368,9 @@ Proof.
   - vm_compute. discriminate.
 Qed.
 
-(* an open branch next to deny_unknown_fields is refused: {"k":"a","zzz":1} is
-   valid for the first branch of Int but serde would reject it *)
+(* an open branch next to deny_unknown_fields is refused: {"k":"b","x":"Off","zzz":1}
+   is valid for the second branch of Int but the struct variant rejects "zzz"
+   (a unit variant would ignore it) *)
 Definition t_T_deny : space :=
   mkSpace
     [ (0%N, mkEntry (DNewtype (u "Lvl") None 1%N (CEnum [JInt 1; JInt 2; JInt 3])) []);
@@ -387,10 +389,10 @@ Definition t_T_deny : space :=
 Example C02_open_branch_refused :
   forall re_match native_ok,
     covers re_match native_ok t_T_deny [(u "Lvl", 0%N); (u "Ext", 2%N); (u "Int", 4%N)] t_int false (TId 4%N) = false
-    /\ Valid re_match (fun _ _ => true) t_D t_int (JObj [(u "k", JStr (u "a")); (u "zzz", JInt 1)])
-    /\ forall f, de re_match native_ok t_T_deny f 4%N (JObj [(u "k", JStr (u "a")); (u "zzz", JInt 1)]) = None.
+    /\ Valid re_match (fun _ _ => true) t_D t_int (JObj [(u "k", JStr (u "b")); (u "x", JStr (u "Off")); (u "zzz", JInt 1)])
+    /\ forall f, de re_match native_ok t_T_deny f 4%N (JObj [(u "k", JStr (u "b")); (u "x", JStr (u "Off")); (u "zzz", JInt 1)]) = None.
 Proof.
   intros. split; [vm_compute; reflexivity|]. split.
-  - exists 2. split; vm_compute; reflexivity.
-  - intros [|f]; reflexivity.
+  - exists 3. split; vm_compute; reflexivity.
+  - intros [|[|[|f]]]; reflexivity.
 Qed.
